@@ -364,6 +364,35 @@ Example c05_form_blank_example :
             (header_doc [("X-A", Some [])]%string) = Ok (VStruct [VSlice []]).
 Proof. vm_compute. repeat split. Qed.
 
+(* INDEPENDENCE of calls: the result of a call inside any history of calls (with or without options, before or after)
+   is the result of that call alone -- the model has no state to leak.  On the Go code this is Exec.spec_ok's pair
+   clause: every option-less call made after (and before) a conf.Load* / WithCanonicalKeyFunc call in the same process
+   must give what the same call gives in a process that never used options. *)
+Theorem c05_calls_independent : forall pre c post,
+  nth_error (run_history (pre ++ c :: post)) (List.length pre) = Some (run_call c).
+Proof.
+  intros pre c post. unfold run_history. rewrite map_app. rewrite nth_error_app2; rewrite map_length; [|lia].
+  rewrite Nat.sub_diag. reflexivity.
+Qed.
+Print Assumptions c05_calls_independent.
+
+(* JSON bodies: the json-tagged members are read from the body for EVERY method that carries one *)
+Theorem c05_json_body_any_method : forall m1 m2 body n t, parse_json_body m1 body n t = parse_json_body m2 body n t.
+Proof. reflexivity. Qed.
+Print Assumptions c05_json_body_any_method.
+
+(* YAML integer literals at the int64 / uint64 edge keep their text (yaml.v2 int64 / uint64 -> lang.Repr): the JSON and
+   the YAML document are the same content, so the verdict and the value are the same -- never a wrapped number *)
+Example c05_yaml_int_edges :
+  same_content (YSeq [YInt 9223372036854775807; YInt 9223372036854775808; YInt 18446744073709551615; YInt (-9223372036854775808)])
+               (JArr [JNum "9223372036854775807" (int_fi 9223372036854775807); JNum "9223372036854775808" (int_fi 9223372036854775808); JNum "18446744073709551615" (int_fi 18446744073709551615);
+                      JNum "-9223372036854775808" (int_fi (-9223372036854775808))]) = true /\
+  (let t := Struct [mkfield "v" no_opts false (Prim (KInt W64))]%string in
+   exists e, unmarshal 4 t (yaml_to_json (YMap [("v", YInt 9223372036854775808)]%string)) = Err e) /\
+  (let t := Struct [mkfield "v" no_opts false (Prim (KInt W64))]%string in
+   unmarshal 4 t (yaml_to_json (YMap [("v", YInt 9223372036854775807)]%string)) = Ok (VStruct [VInt 9223372036854775807])).
+Proof. vm_compute. split; [reflexivity|]. split; [eexists; reflexivity | reflexivity]. Qed.
+
 (* ---------------- non-vacuity *)
 Example c05_keys_example :
   to_camel_case "user_name" = "userName"%string /\ to_camel_case "UserName" = "userName"%string /\
@@ -393,5 +422,5 @@ Proof. vm_compute. repeat split; eexists; reflexivity. Qed.
 Example c05_wf_example : wf_ty ex_ty = true /\ wfx ex_ty = true. Proof. split; reflexivity. Qed.
 Example c05_same_content_example :
   same_content (YMap [("a", YInt (-7)); ("b", YSeq [YBool true; YStr "x" None])]%string)
-               (JObj [("a", JNum "-7" int_fi); ("b", JArr [JBool true; JStr "x" None])]%string) = true.
+               (JObj [("a", JNum "-7" (int_fi (-7))); ("b", JArr [JBool true; JStr "x" None])]%string) = true.
 Proof. vm_compute. reflexivity. Qed.
